@@ -4,6 +4,7 @@ CONSTANTS
   R = 4
   Gaps = {1, 3}
   Kinds = {"zero", "own", "stale"}
+  ScrapeSets = {}
   MaxClk = 9
   OOOBack = {2}
   Snap = TRUE
